@@ -2,7 +2,7 @@
    duplicate scan of the code (later element against the earlier ones) finds what the specification's scan (earlier
    element against the later ones) finds.  Used to bring uniqueItems inside the proved fragment. *)
 From Coq Require Import List ZArith Bool Lia.
-From Verif Require Import Base.Sx Base.GoVal Schema.Ast Schema.Pipeline Schema.Draft4 Schema.Agreement.
+From Verif Require Import Base.Sx Base.GoVal Schema.Ast Schema.Pipeline Schema.Draft4 Schema.AgreementData.
 Import ListNotations.
 Open Scope Z_scope.
 
@@ -12,7 +12,7 @@ Variable allow_null : bool.
 Variable N : numops.
 Hypothesis Heq_sym : forall a b, fin a -> fin b -> n_eq N a b = n_eq N b a.
 
-Notation jd := (jd fin allow_null).
+Notation jd := (AgreementData.jd fin allow_null).
 
 (* depth of an element is below the depth of its container *)
 Lemma fold_max_ge {A} (f : A -> nat) (l : list A) : forall acc x, In x l -> (f x <= fold_left (fun a e => Nat.max a (f e)) l acc)%nat.
@@ -71,7 +71,7 @@ Proof.
     try reflexivity.
   - cbn [json_eq_fuel]. destruct b0, b; reflexivity.
   - cbn [json_eq_fuel]. apply Z.eqb_sym.
-  - cbn [json_eq_fuel]. cbn [Agreement.jd] in Ha, Hb. apply Heq_sym; tauto.
+  - cbn [json_eq_fuel]. cbn [AgreementData.jd] in Ha, Hb. apply Heq_sym; tauto.
   - cbn [json_eq_fuel]. apply jd_arr in Ha. apply jd_arr in Hb. revert lb Hb. induction Ha as [|x t Hx Ht IHl]; intros [|y u] Hb; try reflexivity.
     inversion Hb; subst. rewrite (IH x y); [|assumption|assumption]. f_equal. apply IHl. assumption.
   - (* objects: equal sizes, distinct keys on both sides *)
@@ -100,4 +100,45 @@ Proof.
     apply eq_true_iff_eq. split; intros H; [apply (Hdir ma mb) | apply (Hdir mb ma)]; auto.
 Qed.
 
+Theorem json_eq_sym a b : jd a -> jd b -> json_eq N a b = json_eq N b a.
+Proof.
+  intros Ha Hb. unfold json_eq. set (F := S (Nat.max (jdepth a) (jdepth b))).
+  rewrite (json_eq_fuel_stable (S (jdepth a)) F a b); [|lia | unfold F; lia].
+  rewrite (json_eq_fuel_stable (S (jdepth b)) F b a); [|lia | unfold F; lia].
+  apply json_eq_fuel_sym; assumption.
+Qed.
+
+(* the code scans each element against the earlier ones, the specification against the later ones *)
+Fixpoint dup2 (l : list goval) : bool :=
+  match l with
+  | [] => false
+  | x :: t => existsb (fun w => deep_eq N w x) t || dup2 t
+  end.
+
+Lemma existsb_app_bool {A} (f : A -> bool) l1 l2 : existsb f (l1 ++ l2) = existsb f l1 || existsb f l2.
+Proof. apply existsb_app. Qed.
+
+Lemma unique_items_dup2 : forall l seen,
+  unique_items N seen l = existsb (fun v => existsb (deep_eq N v) seen) l || dup2 l.
+Proof.
+  induction l as [|v t IH]; intros seen; [reflexivity|]. cbn [unique_items existsb dup2].
+  destruct (existsb (deep_eq N v) seen) eqn:E; [reflexivity|]. rewrite IH. cbn [orb].
+  assert (H : existsb (fun w => existsb (deep_eq N w) (seen ++ [v])) t =
+              existsb (fun w => existsb (deep_eq N w) seen) t || existsb (fun w => deep_eq N w v) t).
+  { clear. induction t as [|w u IHu]; [reflexivity|]. cbn [existsb]. rewrite IHu, existsb_app. cbn [existsb]. rewrite orb_false_r.
+    destruct (existsb (deep_eq N w) seen), (deep_eq N w v), (existsb (fun w0 => existsb (deep_eq N w0) seen) u), (existsb (fun w0 => deep_eq N w0 v) u); reflexivity. }
+  rewrite H. destruct (existsb (fun w => existsb (deep_eq N w) seen) t), (existsb (fun w => deep_eq N w v) t), (dup2 t); reflexivity.
+Qed.
+
+Theorem unique_items_has_dup l : Forall (AgreementData.jd fin allow_null) l -> unique_items N [] l = has_dup N l.
+Proof.
+  intros Hl. rewrite unique_items_dup2.
+  assert (E : existsb (fun v => existsb (deep_eq N v) []) l = false).
+  { clear. induction l as [|y u IHu]; [reflexivity | cbn [existsb orb]; exact IHu]. }
+  rewrite E. cbn [orb]. clear E. induction Hl as [|x t Hx Ht IH]; [reflexivity|]. cbn [dup2 has_dup]. rewrite IH. f_equal.
+  clear IH. induction Ht as [|w u Hw Hu IHu]; [reflexivity|]. cbn [existsb]. rewrite IHu. f_equal.
+  rewrite (deep_eq_json_eq w x Hw Hx). apply json_eq_sym; assumption.
+Qed.
+
 End JEq.
+
